@@ -71,6 +71,12 @@ impl Wire {
 	}
 }
 
+thread_local! {
+	/// Step records of the scenario being run (kept outside `Env` so that they survive a panic).
+	static STEPS: std::cell::RefCell<Vec<String>> = std::cell::RefCell::new(Vec::new());
+	static HEAD: std::cell::RefCell<String> = std::cell::RefCell::new(String::new());
+}
+
 struct Pay {
 	hash: PaymentHash,
 	preimage: PaymentPreimage,
@@ -184,7 +190,6 @@ struct Env<'a, 'b, 'c, 'd> {
 	connected: bool,
 	pays: Vec<Pay>,
 	keys: [[u8; 32]; 2],
-	steps: Vec<String>,
 	closed: [bool; 2],
 	seed: u64,
 	ct: u8,
@@ -411,7 +416,7 @@ impl<'a, 'b, 'c, 'd> Env<'a, 'b, 'c, 'd> {
 			self.connected as u8
 		)
 		.unwrap();
-		self.steps.push(s);
+		STEPS.with(|v| v.borrow_mut().push(s));
 		if want_disconnect && self.connected {
 			self.do_disconnect("disc(auto)");
 		}
@@ -608,6 +613,11 @@ impl<'a, 'b, 'c, 'd> Env<'a, 'b, 'c, 'd> {
 					_ => 0,
 				};
 				let amt = amt.max(0).min(u64::MAX as i128 / 4) as u64;
+				if amt == 0 {
+					// a zero-value payment is an API misuse of the router, not a channel operation
+					self.record(&format!("send {} 0", x), ",\"skip\":1");
+					return;
+				}
 				self.do_send(x, amt, "");
 			},
 			"claim" | "fail" => {
@@ -630,6 +640,17 @@ impl<'a, 'b, 'c, 'd> Env<'a, 'b, 'c, 'd> {
 			},
 			"fee" => {
 				let r = num(1) as u32;
+				// Environment assumption: the two nodes' fee estimators agree whenever an update_fee is
+				// processed (otherwise the receiver legitimately closes with "feerate much too low"), so
+				// the estimate only moves while no fee update is pending anywhere.
+				let busy = (0..2).any(|x| match self.dump(x) {
+					Some(d) => d.pending_update_fee.is_some() || d.holding_cell_update_fee.is_some(),
+					None => true,
+				}) || self.q.iter().any(|q| q.iter().any(|m| matches!(m, Wire::Fee(_))));
+				if busy {
+					self.record(&format!("fee {}", r), ",\"skip\":1");
+					return;
+				}
 				for x in 0..2 {
 					*self.nodes[x].fee_estimator.sat_per_kw.lock().unwrap() = r;
 				}
@@ -678,7 +699,7 @@ impl<'a, 'b, 'c, 'd> Env<'a, 'b, 'c, 'd> {
 						self.do_send(x, lim + 1, &pre);
 					},
 					"under" => {
-						if min >= 1 {
+						if min >= 2 {
 							self.do_send(x, min - 1, &pre);
 						} else {
 							self.record(&format!("probe {} {}", x, mode), ",\"skip\":1");
@@ -737,6 +758,8 @@ fn run_scenario(line: &str) -> String {
 		None => (line, ""),
 	};
 	let c = parse_cfg(head);
+	STEPS.with(|v| v.borrow_mut().clear());
+	HEAD.with(|h| *h.borrow_mut() = format!("\"id\":\"{}\"", esc(&c.id)));
 	let mut user_cfg: UserConfig = if c.ct == 0 { test_legacy_channel_config() } else { test_default_channel_config() };
 	if c.ct == 2 {
 		user_cfg.channel_handshake_config.negotiate_anchors_zero_fee_htlc_tx = false;
@@ -816,7 +839,6 @@ fn run_scenario(line: &str) -> String {
 		connected: true,
 		pays: Vec::new(),
 		keys: [k0, k1],
-		steps: Vec::new(),
 		closed: [false, false],
 		seed,
 		ct: c.ct,
@@ -828,6 +850,23 @@ fn run_scenario(line: &str) -> String {
 			init_commits.push(commit_js(kind, env.who(&k), &tx));
 		}
 	}
+	HEAD.with(|h| {
+		*h.borrow_mut() = format!(
+			"\"id\":\"{}\",\"cfg\":{{\"ct\":{},\"value\":{},\"push\":{},\"fee\":{},\"resppm\":{},\"zr\":{},\"maxacc\":{},\"infl\":{},\"hmin\":{},\"ctname\":\"{}\"}},\"init_commits\":[{}]",
+			esc(&c.id),
+			c.ct,
+			c.value,
+			c.push,
+			c.fee,
+			c.resppm,
+			c.zr,
+			c.maxacc,
+			c.infl,
+			c.hmin,
+			esc(&ctname),
+			init_commits.join(",")
+		)
+	});
 	env.record("init", "");
 	for l in labels.split(';') {
 		let l = l.trim();
@@ -839,22 +878,8 @@ fn run_scenario(line: &str) -> String {
 		}
 		env.run_label(l);
 	}
-	let out = format!(
-		"{{\"id\":\"{}\",\"cfg\":{{\"ct\":{},\"value\":{},\"push\":{},\"fee\":{},\"resppm\":{},\"zr\":{},\"maxacc\":{},\"infl\":{},\"hmin\":{},\"ctname\":\"{}\"}},\"init_commits\":[{}],\"steps\":[{}]}}",
-		esc(&c.id),
-		c.ct,
-		c.value,
-		c.push,
-		c.fee,
-		c.resppm,
-		c.zr,
-		c.maxacc,
-		c.infl,
-		c.hmin,
-		esc(&ctname),
-		init_commits.join(","),
-		env.steps.join(",")
-	);
+	let steps = STEPS.with(|v| v.borrow().join(","));
+	let out = format!("{{{},\"steps\":[{}]}}", HEAD.with(|h| h.borrow().clone()), steps);
 	drop(env);
 	std::mem::forget(nodes);
 	out
@@ -882,10 +907,11 @@ fn main() {
 		match r {
 			Ok(s) => writeln!(out, "R {}", s).unwrap(),
 			Err(_) => {
-				let id = line.split_whitespace().nth(1).unwrap_or("?");
 				let msg = last_panic.lock().unwrap().clone();
 				let _ = vh::commit_log::take();
-				writeln!(out, "R {{\"id\":\"{}\",\"panic\":\"{}\"}}", esc(id), esc(&msg[..msg.len().min(600)])).unwrap()
+				let steps = STEPS.with(|v| v.borrow().join(","));
+				let head = HEAD.with(|h| h.borrow().clone());
+				writeln!(out, "R {{{},\"steps\":[{}],\"panic\":\"{}\"}}", head, steps, esc(&msg[..msg.len().min(600)])).unwrap()
 			},
 		}
 		out.flush().unwrap();
